@@ -51,7 +51,19 @@ def audit_emitted(ctx):
     body = m.group(1) if m else ''
     mm = re.search(r'xchg', body)
     if not mm or not re.search(r'\$1,\s*\(%rdi\)', body[:mm.start()]): bad.append('lit_store_xchg: the store "*flag = 1" before uatomic_xchg was dropped or moved after it')
-    ctx.cov['barrier_litmus_functions'] = 5
+    # store-buffering shape on the memory-order API, both language modes (C11 builtins / pre-C11 emulation in uatomic/x86.h)
+    for std in ([], ['-std=gnu99']):
+        out2 = os.path.join(BUILD, 'ua_barrier_%s.s' % (std[0][5:] if std else 'default'))
+        rc, so, se = sh(['gcc', '-O2', '-S'] + std + ['-o', out2] + INC + [os.path.join(HARN, 'seqdiff/ua_barrier.c')])
+        if rc: bad.append('ua_barrier.c does not compile with %s: %s' % (std, se[-300:])); continue
+        asm2 = open(out2).read()
+        for fn in ('lit_store_seqcst', 'lit_set_seqcst'):
+            m = re.search(r'^%s:\n(.*?)\n\s*ret' % fn, asm2, flags=re.S | re.M)
+            body = m.group(1) if m else ''
+            ld = re.search(r'\(%rsi\)\s*,', body)
+            if not ld or not re.search(r'mfence|xchg|lock', body[:ld.start()]):
+                bad.append('%s (%s): no full fence (mfence / xchg / locked instruction) between the CMM_SEQ_CST store and the following CMM_SEQ_CST load: the store may sit in the store buffer past the load' % (fn, ' '.join(std) or 'default language mode'))
+    ctx.cov['barrier_litmus_functions'] = 7
     return bad
 
 def run(ctx):
